@@ -450,4 +450,25 @@ theorem C16_code_signature_check (ns : List String) (label : String) :
   simpa [signature_names_check, validSignature] using h
 
 
+open Atsim.Gen.Logic in
+/-- **code tie**: `Configuration.read_from_parser` as regenerated: the target is the one the parser reports, `LAMMPS` when there is none; a target the factory table does
+not hold is a configuration error and no factory is called; otherwise exactly that target's factory builds the tabulation (and its error, if any, is the result) -/
+theorem C16_code_read_from_parser (create : FactoryObj → CpT → Except TargetErr TabulationObj) (facs : List (String × FactoryObj)) (cp : CpT) :
+    read_from_parser create facs cp =
+      (match lookupLast facs (cp.tabulation.target.getD "LAMMPS") with
+       | none => .error TargetErr.unknownTarget
+       | some f => create f cp) := by
+  unfold read_from_parser
+  cases h : cp.tabulation.target with
+  | none =>
+    simp only [Option.getD_none]
+    cases lookupLast facs "LAMMPS" with
+    | none => rfl
+    | some f => simp only [andThen]; cases create f cp <;> rfl
+  | some t =>
+    simp only [Option.getD_some]
+    cases lookupLast facs t with
+    | none => rfl
+    | some f => simp only [andThen]; cases create f cp <;> rfl
+
 end Atsim.C16
